@@ -133,13 +133,25 @@ class gather(core.Stream):
     buffer
     scatter
     """
+    _previous = None
+
     @gen.coroutine
     def update(self, x, who=None, metadata=None):
         client = default_client()
 
         self._retain_refs(metadata)
-        result = yield client.gather(x, asynchronous=True)
-        result2 = yield self._emit(result, metadata=metadata)
+        # results leave in the order in which the futures arrived here, not in
+        # the order in which the cluster happens to finish them
+        previous, turn = self._previous, gen.Future()
+        self._previous = turn
+        try:
+            result = yield client.gather(x, asynchronous=True)
+            if previous is not None:
+                yield previous
+            emitted = self._emit(result, metadata=metadata)
+        finally:
+            turn.set_result(None)
+        result2 = yield emitted
         self._release_refs(metadata)
 
         raise gen.Return(result2)
